@@ -3,6 +3,7 @@ package checks
 import (
 	"bytes"
 	"fmt"
+	"strings"
 	"sync"
 
 	"verif/internal/adapt"
@@ -30,6 +31,19 @@ type ltLive struct {
 	it       *ltItem
 	res      adapt.Parsed
 	consumed []byte
+	buf      []byte // the private buffer the value was parsed from
+}
+
+// ltIndependentOfBuffer: the structures property C08 lists as not sharing memory with the caller's
+// buffer (RouterInfo, RouterAddress, mappings and the mapping-carrying LeaseSet2 / MetaLeaseSet
+// serialisations are deliberately not on that list). For these the history has one more step: the
+// caller recycles its buffers, and the serialisation must still be the bytes that were consumed.
+func ltIndependentOfBuffer(family string) bool {
+	switch family {
+	case "Certificate", "KeyCertificate", "KeysAndCert", "Destination", "RouterIdentity", "Lease", "Lease2", "LeaseSet", "EncryptedLeaseSet":
+		return true
+	}
+	return strings.HasPrefix(family, "Signature[") || strings.HasPrefix(family, "OfflineSignature[")
 }
 
 func ltParse(it *ltItem) (*ltLive, bool) {
@@ -38,7 +52,7 @@ func ltParse(it *ltItem) (*ltLive, bool) {
 	if pan, _ := core.Guard(func() { res = it.p.Fn(buf) }); pan || !res.OK || res.Ser == nil {
 		return nil, false
 	}
-	l := &ltLive{it: it, res: res}
+	l := &ltLive{it: it, res: res, buf: buf}
 	if res.HasRem {
 		if len(res.Rem) > len(it.in) {
 			return nil, false
@@ -170,6 +184,24 @@ func lifetimesC01(r *core.Run) {
 				}
 			}
 		}
+		// last step: the caller recycles every buffer it parsed from
+		for _, lv := range live {
+			for i := range lv.buf {
+				lv.buf[i] = 0x5a
+			}
+		}
+		r.Transitions.Add(1)
+		for v, lv := range live {
+			if !ltIndependentOfBuffer(lv.it.p.Family) {
+				continue
+			}
+			r.States.Add(1)
+			if h, why := lv.holds(); !h {
+				id := fmt.Sprintf("C01|%s|%s|reserialise-differs-after-the-caller-recycled-its-buffer", hist[v].p.Name, hist[v].fam)
+				r.Violate(id, fmt.Sprintf("history %v + buffers overwritten: the value of step %d no longer serialises to the bytes it consumed: %s", hist, v, why), core.Case{Kind: "lifetimes", Args: ltArgs(hist, v)})
+				return
+			}
+		}
 		r.Traces.Add(1)
 		r.Evaluations.Add(1)
 		sampled.Do(func() {
@@ -242,6 +274,20 @@ func replayLifetimes(r *core.Run, c core.Case) {
 				r.Violate(fmt.Sprintf("C01|%s|%s|reserialise-differs-after-a-later-parse[%s]", hist[v].p.Name, hist[v].fam, hist[step].p.Name), "replay: "+why, c)
 				return
 			}
+		}
+	}
+	for _, lv := range live {
+		for i := range lv.buf {
+			lv.buf[i] = 0x5a
+		}
+	}
+	for v, lv := range live {
+		if !ltIndependentOfBuffer(lv.it.p.Family) {
+			continue
+		}
+		if h, why := lv.holds(); !h {
+			r.Violate(fmt.Sprintf("C01|%s|%s|reserialise-differs-after-the-caller-recycled-its-buffer", hist[v].p.Name, hist[v].fam), "replay: "+why, c)
+			return
 		}
 	}
 }
